@@ -463,10 +463,10 @@ def fam_ti_addon_chain(n, dup):
 
 
 def fam_ti_interpolation(n, dup=False):
-    """ConfigParser value interpolation: a chain of 6 options each naming the previous one n times"""
+    """ConfigParser value interpolation: a chain of 9 options each naming the previous one n times"""
     out = ["[header]", "type = productmd.treeinfo", "version = 1.2", "[release]", "name = F", "short = F", "version = 1",
            "[tree]", "arch = x86_64", "build_timestamp = 1", "platforms = x86_64", "[checksums]", "a0 = sha256:" + "a" * 8]
-    for i in range(1, 6):
+    for i in range(1, 9):
         out.append("a%d = %s" % (i, "%%(a%d)s" % (i - 1) * n))
     return "ti", "\n".join(out) + "\n"
 
@@ -546,16 +546,18 @@ def eval_struct(name):
         sizes.append(n)
         steps.append(c)
         nbytes.append(len(text))
-        if c > STEP_CAP:                # the next size is only attempted while the work stays small (growth is judged on ratios)
-            break
-    ratios = [steps[i + 1] / float(max(steps[i], 1)) for i in range(len(steps) - 1)]
+        if c > STEP_CAP and (c > HARD_CAP or len(text) > 1024):
+            break                       # (sizes are attempted until the work exceeds the hard cap or the document exceeds 1 KiB)
+    measured = [c for c in steps if c <= HARD_CAP]                 # (aborted loads only tell "more than the cap")
+    ratios = [measured[i + 1] / float(max(measured[i], 1)) for i in range(len(measured) - 1)]
     # exponential (or worse): over the last 5 steps the growth ratio stays >= 1.7 AND does not fall off - for a polynomial of any
     # degree the ratio ((n+1)/n)^d keeps shrinking towards 1, for c^n it is constant, for n! it rises
     last = ratios[-5:]
     exponential = len(last) == 5 and min(last) >= 1.7 and last[-1] >= 0.9 * max(last)
-    capped = steps[-1] > STEP_CAP
+    # stall: a document of at most 1 KiB needs more than HARD_CAP Python calls (several seconds) - whatever the growth law
+    stalls = any(c > HARD_CAP and b <= 1024 for c, b in zip(steps, nbytes))
     return {"sizes": sizes, "steps": steps, "bytes": nbytes, "exponential": bool(exponential),
-            "stalls": bool(capped and nbytes[-1] <= 400 and not exponential), "last_ratios": [round(r, 2) for r in last]}
+            "stalls": bool(stalls and not exponential), "last_ratios": [round(r, 2) for r in last]}
 
 
 # ---- exploration --------------------------------------------------------------------------------
